@@ -80,6 +80,13 @@ type DocConfig struct {
 	// ManyObjects > 0 adds that many small objects of irregular size (Put), so
 	// that the cross-reference data itself becomes large.
 	ManyObjects int
+	// ManyUnwritten allocates that many references which are never written;
+	// TinyObjStm starts the program with a WriteCompressed call of 1-3 objects
+	// (together: an object stream with a high number in a tiny file).
+	ManyUnwritten int
+	TinyObjStm    bool
+	// HugeObjStm makes the wide WriteCompressed call carry more than 10000 objects.
+	HugeObjStm bool
 	// PlainCatalog leaves the optional catalog entries unset.
 	PlainCatalog bool
 	// EndstreamBodies makes every stream body a long text with lines that start with "endstream".
@@ -493,6 +500,28 @@ func BuildDoc(r *kit.Rand, cfg DocConfig) (*Doc, error) {
 		record(&WObj{Ref: ref, Value: pdf.Dict{"N": pdf.Integer(-1)}, IsStream: true, Body: body})
 		d.Ops = append(d.Ops, fmt.Sprintf("Pad(%d)", cfg.PadBytes))
 	}
+	for i := 0; i < cfg.ManyUnwritten; i++ {
+		d.Unwritten = append(d.Unwritten, alloc())
+	}
+	if cfg.ManyUnwritten > 0 {
+		d.Ops = append(d.Ops, fmt.Sprintf("Alloc*%d", cfg.ManyUnwritten))
+	}
+	if cfg.TinyObjStm {
+		n := 1 + r.Intn(3)
+		refs := make([]pdf.Reference, n)
+		objs := make([]pdf.Object, n)
+		for j := range refs {
+			refs[j] = alloc()
+			objs[j] = pdf.Integer(1000 + j)
+		}
+		if err := w.WriteCompressed(refs, objs...); err != nil {
+			return d, fmt.Errorf("%s: WriteCompressed(%d objects): %w", cfg.String(), n, err)
+		}
+		for j := range refs {
+			record(&WObj{Ref: refs[j], Value: objs[j], InObjStm: cfg.Version >= pdf.V1_5 && !cfg.HumanReadable})
+		}
+		d.Ops = append(d.Ops, fmt.Sprintf("WriteCompressed(%d)", n))
+	}
 	for i := 0; i < cfg.ManyObjects; i++ {
 		ref := alloc()
 		var obj pdf.Object
@@ -559,6 +588,9 @@ func BuildDoc(r *kit.Rand, cfg DocConfig) (*Doc, error) {
 			n := 1 + r.Intn(5)
 			if !wideDone {
 				n = kit.Pick(r, []int{254, 255, 256, 257, 258, 300, 600})
+				if cfg.HugeObjStm {
+					n = kit.Pick(r, []int{10000, 10001, 12345, 20001})
+				}
 				wideDone = true
 			}
 			refs := make([]pdf.Reference, n)
